@@ -8,7 +8,8 @@
    Definitions only. *)
 From Coq Require Import ZArith List Bool.
 Import ListNotations.
-From Cffi Require Import C16.Gen.     (* two source facts regenerated on every run *)
+From Cffi Require Export C16.SubLang.
+From Cffi Require Import C16.Gen.     (* source facts regenerated on every run *)
 Open Scope Z_scope.
 
 Definition wrap64 (z : Z) : Z := z mod 2 ^ 64.
@@ -99,19 +100,24 @@ Definition add_or_sub (cd : cdata) (w : Z) (sign : Z) : res cdata :=
 Definition cdiv (a b : Z) : Z := Z.quot a b.
 Definition cmod (a b : Z) : Z := Z.rem a b.
 
-(* cdata_sub :2807, both operands cdata of the same pointer type (after array decay of w) *)
+(* the arithmetic of cdata_sub as it is in the source now: interpreter of C16/Gen.v gen_sub_prog.
+   diff and itemsize are Py_ssize_t values; an operand cast to size_t is its 64-bit pattern (wrap64), the
+   unsigned quotient is stored back into the Py_ssize_t diff (to_ssize) *)
+Definition as_cast (c : icast) (z : Z) : Z := match c with CSigned => z | CUnsigned => wrap64 z end.
+Definition from_cast (c : icast) (z : Z) : Z := match c with CSigned => z | CUnsigned => to_ssize z end.
+Definition sub_arith (p : sub_prog) (diff itemsize : Z) : res Z :=
+  if sp_guard_gt p <? itemsize then
+    if negb (cmod (as_cast (sp_mod_cast p) diff) (as_cast (sp_mod_cast p) itemsize) =? 0) then Err ValueError
+    else Ok (from_cast (sp_div_cast p) (cdiv (as_cast (sp_div_cast p) diff) (as_cast (sp_div_cast p) itemsize)))
+  else Ok diff.
+
+(* cdata_sub, both operands cdata of the same pointer type (after array decay of w) *)
 Definition ptr_sub (v w : cdata) : res Z :=
   match c_kind v with
   | KArr _ => Err TypeError          (* ct != cdv->c_type: the left operand does not decay *)
   | KPtr _ =>
   if (c_isz w <=? 0) && negb (c_voidp w) then Err TypeError
-  else
-    let itemsize := c_isz w in
-    let diff := to_ssize (c_data v - c_data w) in
-    if 1 <? itemsize then
-      if negb (cmod diff itemsize =? 0) then Err ValueError
-      else Ok (cdiv diff itemsize)
-    else Ok diff
+  else sub_arith gen_sub_prog (to_ssize (c_data v - c_data w)) (c_isz w)
   end.
 
 (* ---------------------------------------------------------------- direct_typeoffsetof :6677-6699 *)
